@@ -184,7 +184,7 @@ def requests_for(w, pairs):
     return reqs
 
 
-TIERS = {"quick": {"worlds": [("W1", 14, 2), ("W1f", 2, 0), ("W2", 8, 1), ("W3", 8, 1), ("W4", 0, 1)]},
+TIERS = {"quick": {"worlds": [("W1", 30, 4), ("W1f", 3, 1), ("W2", 20, 2), ("W3", 20, 2), ("W4", 6, 1)]},
          "thorough": {"worlds": [("W1", 200, 12), ("W1f", 20, 1), ("W2", 200, 6), ("W3", 200, 4), ("W4", 30, 1)]}}
 
 
